@@ -464,7 +464,7 @@ impl World {
     pub fn shape_of(&self, id: u32, depth: usize) -> Shape {
         match self.toks.get(crate::val::index_of(id)) {
             None => Shape::Unknown(id),
-            Some(_) if depth > 6 => Shape::Unknown(id),
+            Some(_) if depth > 14 => Shape::Unknown(id),
             Some(t) => match &t.kind {
                 TokKind::Plain => Shape::T(id),
                 TokKind::List(v) => Shape::L(v.iter().map(|x| self.shape_of(*x, depth + 1)).collect()),
